@@ -399,7 +399,7 @@ def check_any_scalar(case: str, ctx: Ctx) -> None:
 
 
 def misc_cases(shard: int, nshards: int) -> t.Iterator[t.Any]:
-    for (i, c) in enumerate([*ANY_SCALAR, 'one-handler-two-roles:enclosing-first', 'one-handler-two-roles:call-first', 'enum-values:call', 'enum-values:class', 'mapping-not-empty-tuple', 'mapping-not-subclass', 'mapping-not-parameterised', 'global-not-for-int', 'global-before-sequence', 'global-after-protocol',
+    for (i, c) in enumerate([*ANY_SCALAR, 'scalar-handler-without-serializer:call', 'scalar-handler-without-serializer:class', 'one-handler-two-roles:enclosing-first', 'one-handler-two-roles:call-first', 'enum-values:call', 'enum-values:class', 'mapping-not-empty-tuple', 'mapping-not-subclass', 'mapping-not-parameterised', 'global-not-for-int', 'global-before-sequence', 'global-after-protocol',
                              'global-before-builtin-list', 'global-before-builtin-dict', 'global-before-builtin-tuple', 'global-nested-in-dataclass']):
         if i % nshards == shard:
             yield c
@@ -415,6 +415,41 @@ def check_misc(case: str, ctx: Ctx) -> None:
         check_any_scalar(case, ctx)
         return
     conv = _label_conv('C')
+    if case.startswith('scalar-handler-without-serializer'):
+        # a converter with the three documented methods only (no into_data of its own) for a scalar interchange type: convert() and the
+        # constructor serialise first - a plain int is its own serialised form - and then read through the handler, like from_data
+        from pane.converters import Converter
+        from pane.errors import ParseInterrupt, WrongTypeError
+
+        class Hundred(Converter):      # type: ignore
+            def expected(self, plural: bool = False) -> str:
+                return 'an int (read plus 100)'
+
+            def try_convert(self, val: t.Any) -> t.Any:
+                if type(val) is not int:
+                    raise ParseInterrupt()
+                return val + 100
+
+            def collect_errors(self, val: t.Any) -> t.Any:
+                return None if type(val) is int else WrongTypeError(self.expected(), val)
+        H = {int: Hundred()}
+        if case.endswith('call'):
+            calls = [('from_data(5, int)', lambda: pane.from_data(5, int, custom=H), 105), ('convert(5, int)', lambda: pane.convert(5, int, custom=H), 105),
+                     ('convert([5], List[int])', lambda: pane.convert([5], t.List[int], custom=H), [105]),
+                     ('convert(5, Optional[str])', lambda: pane.convert(5, t.Optional[str], custom=H), pane.ConvertError)]
+        else:
+            Reg = type('Reg', (pane.PaneBase,), {'__annotations__': {'addr': int}}, custom=H)
+            calls = [('Reg.from_data', lambda: Reg.from_data({'addr': 5}).addr, 105), ('Reg(addr=5)', lambda: Reg(addr=5).addr, 105),
+                     ('Reg.from_obj', lambda: Reg.from_obj({'addr': 5}).addr, 105)]
+        for (what, f, want) in calls:
+            ctx.evaluated()
+            (k, r) = outcome(f)
+            ok = (k == 'ce') if want is pane.ConvertError else (k == 'ok' and r == want)
+            if not ok:
+                ctx.fail('both-directions', f"{case.split(':')[0]}:{type(r).__name__ if k != 'ok' else 'value'}", f"{case}: {what} under a handler {{int: <converter without into_data>}} gave "
+                         f"{short(r, 80) if k == 'ok' else type(r).__name__ + ': ' + str(r)[:150]}; expected {want if want is not pane.ConvertError else 'ConvertError'}")
+                return
+        return
     if case.startswith('one-handler-two-roles'):
         # one handler object (callable form) serves as the custom= of an enclosing dataclass and, in another conversion, as the custom=
         # of a call; the nested class has a handler of its own.  Call handlers come before the nested class's, the enclosing class's
